@@ -33,6 +33,7 @@ import (
 	"sort"
 	"strings"
 	"sync"
+	"sync/atomic"
 	"testing"
 	"testing/synctest"
 	"time"
@@ -293,7 +294,11 @@ type c18Inst struct {
 	certCache       map[string]*x509.Certificate
 }
 
-var c18Memo sync.Map // (system, history) whose expensive checks already ran once: skipped when replayed as a prefix
+// c18Memo: (system, history) -> instant at which its last operation ended when it was explored. A history that
+// is replayed as the prefix of a longer one skips what cannot influence the state (fresh-manager comparison,
+// dialer-side verifier call, statistics, and the hourly samples other than the one the operation ended at):
+// all of that was checked when the prefix itself was the history under exploration (BFS: always earlier).
+var c18Memo sync.Map
 
 func (in *c18Inst) outcome(k string) { in.outc[k]++ }
 
@@ -693,6 +698,8 @@ func (s *c18Sys) ops(in *c18Inst) []c18Op {
 }
 
 func (s *c18Sys) apply(in *c18Inst, op c18Op) (err error) {
+	var first bool
+	var endedAt *atomic.Int64
 	defer func() {
 		if r := recover(); r != nil {
 			in.kill()
@@ -702,10 +709,16 @@ func (s *c18Sys) apply(in *c18Inst, op c18Op) (err error) {
 			in.kill() // a violating instance is never extended; leave no goroutine behind in the bubble
 		}
 		s.st.merge(in)
+		if err == nil && first && in.m != nil && endedAt != nil {
+			endedAt.Store(in.clk.harnessNow().UnixNano())
+		}
 	}()
 	in.hist += "/" + s.show(op)
-	_, replayed := c18Memo.LoadOrStore(s.name+in.hist, struct{}{})
-	first := !replayed
+	mv, replayed := c18Memo.LoadOrStore(s.name+in.hist, new(atomic.Int64))
+	endedAt = mv.(*atomic.Int64)
+	first = !replayed
+	// skip reports whether a sample point may be passed over without sampling
+	skip := func(p c18Pt) bool { return !first && !p.boundary && p.t.UnixNano() != endedAt.Load() }
 	in.lastOp = op.kind
 	switch op.kind {
 	case c18OpStart:
@@ -723,6 +736,9 @@ func (s *c18Sys) apply(in *c18Inst, op c18Op) (err error) {
 	case c18OpToTimer:
 		before := in.rolls
 		for _, p := range s.points(in.servedS, in.servedE, in.clk.harnessNow()) {
+			if skip(p) {
+				continue
+			}
 			in.clk.advanceTo(p.t)
 			if err := in.sample(p.name, p.boundary, first, p.fresh); err != nil {
 				return err
@@ -741,6 +757,9 @@ func (s *c18Sys) apply(in *c18Inst, op c18Op) (err error) {
 		for _, p := range s.points(in.servedS, in.servedE, in.clk.harnessNow()) {
 			if p.t.After(target) {
 				break
+			}
+			if skip(p) && !p.t.Equal(target) {
+				continue
 			}
 			in.clk.advanceTo(p.t)
 			if err := in.sample(p.name, p.boundary, first, p.fresh && p.t.Equal(target)); err != nil {
@@ -883,7 +902,7 @@ func c18Manager(t *testing.T) {
 
 	hourStep, freshEvery, restartStep, maxRolls, maxRestarts := 6, 24, 24, 3, 1
 	if thorough {
-		hourStep, freshEvery, restartStep, maxRolls, maxRestarts = 1, 4, 8, 4, 2
+		hourStep, freshEvery, restartStep, maxRolls, maxRestarts = 1, 4, 24, 4, 2
 	}
 	starts := c18StartGrid(hourStep)
 	var offs []string
